@@ -106,13 +106,16 @@ class H1(Case):
     stubs = ("System.get_propagators -> symbolic half-step propagators",)
     env = {"noconj": True}
 
-    def __init__(self, nenv, N, bond, rank, transforms, controls, num_steps=None, d=2):
+    def __init__(self, nenv, N, bond, rank, transforms, controls, num_steps=None, d=2, layout="C"):
         self.nenv, self.N, self.bond, self.rank, self.transforms, self.controls = nenv, N, bond, rank, transforms, controls
         self.d = d
         self.num_steps = num_steps
-        self.id = "H1/env%d_N%d_b%d_r%d_%s_%s%s%s" % (nenv, N, bond, rank, ("tr" if transforms is True else "tr" + str(transforms)) if transforms else "notr", controls,
-                                                      "" if num_steps is None else "_n%d" % num_steps, "" if d == 2 else "_d%d" % d)
-        self.bounds = {"d": d, "envs": nenv, "N": N, "bond": bond, "rank": rank, "transforms": transforms, "controls": controls}
+        self.layout = layout      # memory layout of the initial-state array handed to compute_dynamics (same logical matrix)
+        self.id = "H1/env%d_N%d_b%d_r%d_%s_%s%s%s%s" % (nenv, N, bond, rank, ("tr" if transforms is True else "tr" + str(transforms)) if transforms else "notr", controls,
+                                                        "" if num_steps is None else "_n%d" % num_steps, "" if d == 2 else "_d%d" % d,
+                                                        "" if layout == "C" else "_layout" + layout)
+        self.bounds = {"d": d, "envs": nenv, "N": N, "bond": bond, "rank": rank, "transforms": transforms, "controls": controls,
+                       "initial_state_layout": layout}
         self.timeout_s = 300
 
     def run(self, inp):
@@ -146,10 +149,20 @@ class H1(Case):
             kw.update(dt=0.1, num_steps=n_run)
         elif self.num_steps is not None:
             kw.update(num_steps=n_run)
-        dyn = sd.compute_dynamics(system, initial_state=rho0, process_tensor=pts if self.nenv != 1 else pts[0],
+        rho_in = rho0
+        if self.layout == "F":        # column-major copy: same matrix, other memory order
+            rho_in = np.asfortranarray(rho0)
+        elif self.layout == "S":      # non-contiguous view into a larger buffer
+            big = np.zeros((2 * d, 2 * d), dtype=rho0.dtype)
+            big[::2, ::2] = rho0
+            rho_in = big[::2, ::2]
+        dyn = sd.compute_dynamics(system, initial_state=rho_in, process_tensor=pts if self.nenv != 1 else pts[0],
                                   control=control, progress_type="silent", **kw)
         states = lib.dynamics_states(dyn)
-        obs = [Ob.holds("number of states", len(states) == n_run + 1)]
+        obs = [Ob.holds("number of states", len(states) == n_run + 1),
+               Ob.holds("initial-state array has the intended memory layout",
+                        {"C": rho_in.flags["C_CONTIGUOUS"], "F": rho_in.flags["F_CONTIGUOUS"] and not rho_in.flags["C_CONTIGUOUS"],
+                         "S": not rho_in.flags["C_CONTIGUOUS"] and not rho_in.flags["F_CONTIGUOUS"]}[self.layout])]
         for n in range(n_run + 1):
             exp = lib.oracle_pt_dynamics(rho0, envs, P1, P2, n, pre, post).reshape(d, d)
             obs.append(Ob.eq("state at step %d" % n, states[n], exp))
@@ -411,7 +424,8 @@ def cases(tier):
            H1(1, 2, 2, 4, True, "ends"), H1(2, 2, 2, 4, False, "none"), H1(2, 2, 1, 3, True, "stack"),
            H1(3, 2, 1, 4, False, "none"), H1(1, 3, 2, 4, False, "none", num_steps=2),
            H1(2, 2, 2, 4, False, "stack"), H1(1, 3, 2, 3, True, "ends", num_steps=1),
-           H1(1, 2, 2, 4, "out", "none"), H1(1, 2, 2, 3, "in", "none"), H1(2, 2, 1, 4, "out", "prepost")]
+           H1(1, 2, 2, 4, "out", "none"), H1(1, 2, 2, 3, "in", "none"), H1(2, 2, 1, 4, "out", "prepost"),
+           H1(1, 2, 2, 4, False, "none", layout="F"), H1(0, 2, 1, 4, False, "prepost", layout="F"), H1(1, 2, 1, 3, True, "ends", layout="S")]
     cs += [H2(2, 2, 2), H4(2), H4(3), H5(3), H5(4), H6(4, False), H6(4, "in"), H6(4, "out"), H6(4, True), H6(3, False, N=3), H7(3), H7(4), H8(2, 1), H8(2, 2, trivial=True)]
     cs += [H3(2, None), H3(3, 1)]
     if tier == "thorough":
@@ -419,7 +433,8 @@ def cases(tier):
         #  they are run with bond 1 / rank 3 instead; stated bound)
         cs += [H1(1, 3, 2, 4, True, "stack"), H1(2, 3, 1, 4, False, "prepost"), H1(3, 2, 2, 4, False, "ends"),
                H1(2, 3, 2, 3, True, "ends"), H1(3, 3, 1, 3, False, "stack"), H1(1, 4, 2, 4, False, "prepost"),
-               H1(1, 2, 1, 4, False, "prepost", d=3), H1(2, 3, 1, 4, True, "none", num_steps=2)]
+               H1(1, 2, 1, 4, False, "prepost", d=3), H1(2, 3, 1, 4, True, "none", num_steps=2),
+               H1(1, 2, 1, 4, False, "none", d=3, layout="F"), H1(2, 2, 1, 4, False, "stack", layout="S")]
         cs += [H2(3, 2, 1), H2(2, 3, 2), H3(3, None), H3(4, 2), H3(3, 2), H3(4, 1), H1(3, 3, 1, 4, False, "prepost"),
                H1(2, 2, 2, 4, "in", "ends"), H1(1, 4, 2, 3, True, "stack"), H1(2, 2, 1, 4, False, "stack", d=3),
                H6(4, True, N=3), H6(4, "out", N=3, d=3), H5(4, d=3), H7(4)]
